@@ -97,6 +97,71 @@ func src(fset *token.FileSet, n ast.Node) string {
 	return b.String()
 }
 
+// Module.RunFunc (internal/wazero/module.go): where are the capture buffers reset relative to the
+// lazy InstantiateModule (which runs the package's initialisation) and to fn.Call?
+// returns false if stdoutBuffer.Reset() sits between the two (init output is discarded), true if it
+// only happens before the instantiation (init output leaks into the first function's stdout).
+func runFuncResetPlacement(fset *token.FileSet, repo string) bool {
+	f, err := parser.ParseFile(fset, filepath.Join(repo, "internal/wazero/module.go"), nil, 0)
+	if err != nil {
+		die("%v", err)
+	}
+	var body *ast.BlockStmt
+	for _, d := range f.Decls {
+		if fd, ok := d.(*ast.FuncDecl); ok && fd.Recv != nil && fd.Name.Name == "RunFunc" {
+			body = fd.Body
+		}
+	}
+	if body == nil {
+		die("Module.RunFunc not found")
+	}
+	inst, call := -1, -1
+	var resets []int
+	for i, s := range body.List {
+		text := src(fset, s)
+		switch {
+		case strings.Contains(text, "InstantiateModule("):
+			if _, ok := s.(*ast.IfStmt); !ok || inst >= 0 {
+				die("RunFunc: unexpected shape of the lazy instantiation")
+			}
+			inst = i
+		case strings.Contains(text, "fn.Call("):
+			if call >= 0 {
+				die("RunFunc: more than one call")
+			}
+			call = i
+		case strings.Contains(text, "stdoutBuffer.Reset()"):
+			if _, ok := s.(*ast.ExprStmt); !ok {
+				die("RunFunc: conditional reset of the stdout buffer")
+			}
+			resets = append(resets, i)
+		}
+	}
+	if inst < 0 || call < 0 || inst > call {
+		die("RunFunc: instantiation / call not found in the expected order")
+	}
+	between, before := false, false
+	for _, r := range resets {
+		if r > inst && r < call {
+			between = true
+		}
+		if r < inst {
+			before = true
+		}
+		if r > call {
+			die("RunFunc: stdout buffer reset after the call")
+		}
+	}
+	if between {
+		return false
+	}
+	if before {
+		return true
+	}
+	die("RunFunc: the stdout buffer is never reset (output would accumulate across functions; not modelled)")
+	return true
+}
+
 func main() {
 	if len(os.Args) < 2 {
 		die("usage: c30_extract <repo>")
@@ -194,6 +259,7 @@ func main() {
 	out := map[string]interface{}{
 		"tests": loops[0], "examples": loops[1], "final": *final,
 		"panicCompare": "prefix", "emptyDeclSentinel": sentinel >= 2,
+		"initOutputLeaks": runFuncResetPlacement(fset, repo),
 	}
 	js, _ := json.Marshal(out)
 	fmt.Println(string(js))
